@@ -148,6 +148,20 @@ Theorem c13_upstream : forall insecure_skip r name_ok,
 Proof. exact upstream_table. Qed.
 Print Assumptions c13_upstream.
 
+(* the upstream side over every dimension (insecure_skip x configured CA x issuer x expired x server_name) *)
+Theorem c13_upstream_full : forall insecure_skip ca i expired n,
+  upstream_handshake insecure_skip ca i expired n = true <->
+  (insecure_skip = true \/ (issued_by_configured_ca ca i = true /\ expired = false /\ n = NameMatches)).
+Proof. exact upstream_full_table. Qed.
+Print Assumptions c13_upstream_full.
+
+(* "an upstream is likewise verified unless insecure_skip is set", the ca-absent case: no ca_cert / an SDS secret without
+   validation context mean the host's root set, to which no certificate of these CAs chains: nothing is accepted *)
+Theorem c13_upstream_no_ca : forall insecure_skip ca i expired n,
+  (ca = CaNone \/ ca = CaSdsNoValidation) -> insecure_skip = false ->
+  upstream_handshake insecure_skip ca i expired n = false.
+Proof. exact upstream_no_ca_accepts_nothing. Qed.
+
 (* ---- inspector ---- *)
 (* on a TCP connection of a listener with a ready context, plaintext is served iff the inspector is on and the
    first byte is not 0x16 *)
